@@ -311,12 +311,16 @@ def check(ctx, rng, kind, ptr, endian, align, compiled):
         cut = addr0 + max(0, model.last_data_byte(tmask))
     if cut > struct_at + size:
         try:
-            ot = T(RecordingStream(data[:cut], struct_at))
+            rs = RecordingStream(data[:cut], struct_at)
+            ot = T(rs)
+            before = rs.position()
             try:
                 x = ot.p.dereference()
                 viol("range", "dereference-of-a-truncated-target-returns-a-value", got=repr(x), cut=cut)
             except Exception:  # noqa: BLE001
                 ctx.event("dereference_of_truncated_target_raises")
+                if rs.position() != before:
+                    viol("position", "failed-dereference-moves-the-stream", before=before, after=rs.position(), cut=cut)
         except Exception:  # noqa: BLE001
             pass
     # address beyond the stream: an error, never a value
